@@ -73,12 +73,12 @@ Definition spec_is_definition_file (f : file) : bool :=
 
 (* positions that are constant definitions in the documented sense *)
 Definition ctx_is_const_def (c : ctx) : bool :=
-  match c with CUpper | CUpperNeg | CUpperAnn | CUpperTuple | CRsStatic | CTsEnum => true | _ => false end.
+  match c with CUpper | CUpperNeg | CUpperAnn | CUpperTuple | CUpperBinop | CRsStatic | CTsEnum => true | _ => false end.
 
 (* small integer inside range() / enumerate(); string repetition *)
 Definition spec_usage_exempt (cfg : mconfig) (c : ctx) (l : lit) (v : Z) : bool :=
   match c with
-  | CRange | CEnumerate => lit_is_int l && (0 <=? v)%Z && (v <=? spec_max_small cfg)%Z
+  | CRange | CEnumerate | CEnumerateKw => lit_is_int l && (0 <=? v)%Z && (v <=? spec_max_small cfg)%Z
   | CStrRepeatL | CStrRepeatR => lit_is_int l
   | _ => false
   end.
@@ -217,8 +217,8 @@ Definition lit_ok (lg : mlang) (l : lit) : bool :=
 Definition ctx_ok (lg : mlang) (k : skind) (c : ctx) : bool :=
   match lg, c with
   | MPy, (CTsEnum | CRsStatic | CMacro | CTsField | CRsEnum) => false
-  | MTs, (CRange | CEnumerate | CStrRepeatL | CStrRepeatR | CDictKeys | CRsStatic | CDecorator | CKwarg | CMacro | CRsEnum) => false
-  | MRs, (CDefault | CUpperAnn | CRange | CEnumerate | CStrRepeatL | CStrRepeatR | CDictKeys | CTsEnum
+  | MTs, (CRange | CEnumerate | CEnumerateKw | CStrRepeatL | CStrRepeatR | CDictKeys | CRsStatic | CDecorator | CKwarg | CMacro | CRsEnum) => false
+  | MRs, (CDefault | CUpperAnn | CRange | CEnumerate | CEnumerateKw | CStrRepeatL | CStrRepeatR | CDictKeys | CTsEnum
           | CInterp | CDecorator | CKwarg | CTsField) => false
   | _, _ => true
   end
@@ -228,15 +228,15 @@ Definition ctx_ok (lg : mlang) (k : skind) (c : ctx) : bool :=
      | _ => true
      end
   && match lg, k with
-     | MRs, STop => match c with CUpper | CUpperNeg | CUpperTuple | CRsStatic | CRsEnum => true | _ => false end
-     | MRs, SClass => match c with CUpper | CUpperNeg | CUpperTuple | CRsStatic => true | _ => false end
+     | MRs, STop => match c with CUpper | CUpperNeg | CUpperTuple | CUpperBinop | CRsStatic | CRsEnum => true | _ => false end
+     | MRs, SClass => match c with CUpper | CUpperNeg | CUpperTuple | CUpperBinop | CRsStatic => true | _ => false end
      | MTs, SClass => match c with CTsField => true | _ => false end
      | MTs, _ => match c with CTsField => false | _ => true end
      | _, _ => true
      end.
 
 Definition single_lit_ctx (c : ctx) : bool :=
-  match c with CArg | CElts | CUpperTuple | CTsEnum | CDictKeys | CRange | CDecorator | CNested | CMacro | CRsEnum => false | _ => true end.
+  match c with CArg | CElts | CUpperTuple | CUpperBinop | CTsEnum | CDictKeys | CRange | CDecorator | CNested | CMacro | CRsEnum => false | _ => true end.
 
 (* a constant-definition context binds an UPPER_CASE name, every other context a name that is not UPPER_CASE (so `N = 5`,
    `Max_val = 5`, `_ = 5`, `_1 = 5` are ordinary assignments); Rust const / static items are exempt whatever their name *)
@@ -250,7 +250,11 @@ Definition name_ok (lg : mlang) (c : ctx) (name : string) : bool :=
 Definition site_good (lg : mlang) (k : skind) (s : site) : bool :=
   ctx_ok lg k (s_ctx s) && name_ok lg (s_ctx s) (s_name s)
   && match s_lits s with [] => false | [_] => true | _ => negb (single_lit_ctx (s_ctx s)) end
-  && match s_ctx s with CMatch => forallb lit_is_numeric (s_lits s) | _ => true end      (* a pattern `case True` is no constant *)
+  && match s_ctx s with
+     | CMatch => forallb lit_is_numeric (s_lits s)                 (* a pattern `case True` is no constant *)
+     | CUpperBinop => forallb lit_is_numeric (s_lits s) && (List.length (s_lits s) <=? 2)     (* NAME = L * L: one product *)
+     | _ => true
+     end
   && forallb (lit_ok lg) (s_lits s).
 
 Definition scope_good (lg : mlang) (sc : scope) : bool :=
